@@ -261,6 +261,14 @@ def explore(ctx):
                     ctx.count('wcs=' + desc.split(' rotated')[0])
                     if not (close(g2[0], e2[0], 1e-9) and close(g2[1], e2[1], 1e-9)):
                         fails.append('PP centroid through a WCS with %s: (%r, %r), the transformed mean pixel position is (%r, %r)' % (desc, g2[0], g2[1], float(e2[0]), float(e2[1])))
+                    # a WCS changes the centroids only: sizes, areas and the position angle (the direction of the major
+                    # axis in the pixel grid) are those without it, in the units of the metadata
+                    ow, uw = values(stw, ['major_sigma', 'minor_sigma', 'radius', 'area_ellipse', 'area_exact', 'position_angle'])
+                    for k_ in ow:
+                        same = (abs((ow[k_] - obs[k_] + 90) % 180 - 90) < 1e-6) if k_ == 'position_angle' else close(ow[k_], obs[k_], 1e-9)
+                        if (not same and not (ow[k_] != ow[k_] and obs[k_] != obs[k_])) or uw[k_] != units[k_]:
+                            fails.append('%s with a WCS (%s) is %r %s, without it %r %s' % (k_, desc, ow[k_], uw[k_], obs[k_], units[k_]))
+                            break
             else:
                 base = None
                 for vaxis in (0, 1, 2):
